@@ -49,9 +49,9 @@ func loadGuards() (*guardTable, error) {
 
 func init() {
 	register(&Check{ID: "C10", Run: runC10, Configs: []load.Config{{GOARCH: "386"}, {Tags: "unsafe"}}, Expl: oblig.Explanation{
-		Text: "Interprocedural must-lockset (guarded-by) analysis over the whole module: every field of the types documented as goroutine-safe is assigned one discipline in internal/rules/ref/guards.json (guarded by a named lock, atomic-only, immutable after publication, synchronisation primitive, self-synchronised, confined to an owner set); every access outside constructor context is checked against it: guarded accesses must hold the lock (write mode for writes) on every path, atomic fields are touched only through sync/atomic, immutable/config fields are never written outside constructors, confined fields only by their owners; a mutable field without an entry is a violation; 64-bit atomics must be 8-byte aligned on 386 (thorough tier). Lock identity is (struct type, field), instance-insensitive; function-typed parameters get an invocation-context summary; (*Conn).waitResponse is summarised as returning with Conn.rlock held. Not decided: races through aliases of field addresses (messageSetReader holding &c.rbuf), confusion between two instances of the same type, happens-before through channels other than the listed hand-offs, races inside third-party codecs.",
-		Rule: "one obligation per (field, function, access kind); non-trivial = an access outside constructor context whose lockset was computed",
-		Trusted: []string{"go/ssa, CHA call graph (x/tools v0.29.0)", "discipline table internal/rules/ref/guards.json (each entry confirmed by reading)", "lock aliases Batch.lock ≡ Conn.rlock and the returns-holding summary of waitResponse (checked by C06.R1/R2)"},
+		Text:        "Interprocedural must-lockset (guarded-by) analysis over the whole module: every field of the types documented as goroutine-safe is assigned one discipline in internal/rules/ref/guards.json (guarded by a named lock, atomic-only, immutable after publication, synchronisation primitive, self-synchronised, confined to an owner set); every access outside constructor context is checked against it: guarded accesses must hold the lock (write mode for writes) on every path, atomic fields are touched only through sync/atomic, immutable/config fields are never written outside constructors, confined fields only by their owners; a mutable field without an entry is a violation; 64-bit atomics must be 8-byte aligned on 386 (thorough tier). Lock identity is (struct type, field), instance-insensitive; function-typed parameters get an invocation-context summary; (*Conn).waitResponse is summarised as returning with Conn.rlock held. Not decided: races through aliases of field addresses (messageSetReader holding &c.rbuf), confusion between two instances of the same type, happens-before through channels other than the listed hand-offs, races inside third-party codecs.",
+		Rule:        "one obligation per (field, function, access kind); non-trivial = an access outside constructor context whose lockset was computed",
+		Trusted:     []string{"go/ssa, CHA call graph (x/tools v0.29.0)", "discipline table internal/rules/ref/guards.json (each entry confirmed by reading)", "lock aliases Batch.lock ≡ Conn.rlock and the returns-holding summary of waitResponse (checked by C06.R1/R2)"},
 		Assumptions: []string{"lockset discipline is sufficient, not necessary, for race freedom; each exception is a named (field, function) pair with a reason", "exported configuration fields are not modified by the application after first use (documented)"},
 	}})
 }
@@ -70,6 +70,9 @@ type fieldAccess struct {
 func collectAccesses(p *load.Program, l *an.Locksets, tracked map[string]bool) []fieldAccess {
 	var out []fieldAccess
 	for _, fn := range l.Fns {
+		if an.IsNew(fn) {
+			continue // visited as part of its callers
+		}
 		an.EachInstr(fn, func(ins ssa.Instruction) {
 			fa, ok := ins.(*ssa.FieldAddr)
 			if !ok {
@@ -274,7 +277,7 @@ func c10ExceptionPreconditions(p *load.Program, r *oblig.Report) {
 	l := locksets(p)
 	n := 0
 	for _, fn := range p.ModuleFunctions() {
-		if strings.HasPrefix(fn.Name(), "NewReader") {
+		if strings.HasPrefix(an.RefFuncName(fn), "NewReader") {
 			continue
 		}
 		an.EachInstr(fn, func(ins ssa.Instruction) {
